@@ -11,9 +11,9 @@ for try in 1 2 3; do
   if cargo test --offline --lib --doc >/tmp/vm.$$.log 2>&1 || { cargo test --offline --lib -- --test-threads=1 >/tmp/vm.$$.log 2>&1 && cargo test --offline --doc >>/tmp/vm.$$.log 2>&1; }; then SUITE=pass; break; fi
 done
 cargo test --offline --lib > /tmp/vm.$$.lib.log 2>&1; LIBN=$(grep -E "^test result" /tmp/vm.$$.lib.log | head -1)
-if timeout 600 cargo test --offline --test m${I}_demo >/tmp/vm.$$.demo1.log 2>&1; then WITH=pass; else WITH=fail; fi
+if timeout 600 cargo test --offline $FEATURES --test m${I}_demo >/tmp/vm.$$.demo1.log 2>&1; then WITH=pass; else WITH=fail; fi
 git checkout -q -- .
-if timeout 600 cargo test --offline --test m${I}_demo >/tmp/vm.$$.demo2.log 2>&1; then WITHOUT=pass; else WITHOUT=fail; fi
+if timeout 600 cargo test --offline $FEATURES --test m${I}_demo >/tmp/vm.$$.demo2.log 2>&1; then WITHOUT=pass; else WITHOUT=fail; fi
 rm -f tests/m${I}_demo.rs
 echo "VERIFY $WT m$I: suite_with_change=$SUITE ($LIBN) demo_with_change=$WITH demo_without_change=$WITHOUT"
 rm -f /tmp/vm.$$.*
